@@ -758,7 +758,6 @@ func (vc *FnVC) typeAssert(st *State, in *ssa.TypeAssert) *Val {
 	return vc.unboxPayload(st, x.S, at)
 }
 
-
 func tuple(t types.Type, vs ...*Val) *Val {
 	v := &Val{T: t, Fields: map[string]*Val{}}
 	for i, x := range vs {
